@@ -93,12 +93,14 @@ def run_attrs(pid, tier):
         eq("T::get() visibility", it["T"].get("singleton_vis"), T["vis"])
         if E["singleton"] != NONE:
             eq("E::get() visibility", it["E"].get("singleton_vis"), E["vis"])
-        eq("T derives", it["T"].get("derives"), want_derives(T))
-        eq("E derives", it["E"].get("derives"), conform.BASE_ENUM_DERIVES + want_derives(E))
+        # the property speaks about Copy / Clone / Default; their order and any further derive carry no meaning
+        marker = lambda ds: sorted(set(ds or []) & {"Copy", "Clone", "Default"})
+        eq("T derives", marker(it["T"].get("derives")), sorted(want_derives(T)))
+        eq("E derives", marker(it["E"].get("derives")), sorted(want_derives(E)))
         eq("T packed", bool(it["T"].get("repr", {}).get("packed")), T["packed"])
         if T["packed"]:
             eq("T align attribute on a packed type", it["T"].get("repr", {}).get("align"), NONE)
-        eq("V derives", it["V"].get("derives"), []); eq("VVftable derives", it["VVftable"].get("derives"), [])
+        eq("V derives", marker(it["V"].get("derives")), []); eq("VVftable derives", marker(it["VVftable"].get("derives")), [])
         eq("T doc", it["T"]["doc"], T["doc"]); eq("V doc", it["V"]["doc"], V["doc"]); eq("E doc", it["E"]["doc"], E["doc"])
         eq("field f doc", fld(it["T"], "f")["doc"], T["fields"][0]["doc"])
         eq("field g doc", fld(it["T"], "g")["doc"], [])
